@@ -417,7 +417,32 @@ def validate(seed, tier):
         if model_int(s, 16) != int(s, 16):
             errs.append(f'model_int({s!r}) != int')
         n += 1
-    return n, [{'sample': 'model_int("fF0a",16)', 'value': model_int('fF0a', 16)}], errs
+    # the real codecs: entries written through every supported compression come back equal
+    import os
+    import tempfile
+    from gemato.compression import open_potentially_compressed_path
+    d = tempfile.mkdtemp(prefix='vf-c08-', dir=os.environ.get('TMPDIR', '/tmp'))
+    try:
+        es = [mk_entry('DATA', 'we ird\\\u00a0\U0001f600', 2 ** 64, CKS[2]),
+              mk_entry('IGNORE', '\x7f\t', 0, {}), mk_entry('AUX', 'fix.patch', 1, CKS[1]),
+              ManifestEntryTIMESTAMP(TS[1])]
+        for suf in ('', '.gz', '.bz2', '.lzma', '.xz'):
+            p = os.path.join(d, 'Manifest' + suf)
+            m = ManifestFile()
+            m.entries = list(es)
+            with open_potentially_compressed_path(p, 'w', encoding='utf8') as f:
+                m.dump(f)
+            m2 = ManifestFile()
+            with open_potentially_compressed_path(p, 'r', encoding='utf8') as f:
+                m2.load(f, verify_openpgp=False)
+            if [e.to_list() for e in m2.entries] != [e.to_list() for e in es]:
+                errs.append(f'round trip through {suf or "plain"} differs')
+            n += 1
+    finally:
+        import shutil
+        shutil.rmtree(d, ignore_errors=True)
+    return n, [{'sample': 'model_int("fF0a",16)', 'value': model_int('fF0a', 16)},
+               {'codecs': ['plain', 'gz', 'bz2', 'lzma', 'xz']}], errs
 
 
 ASSUMPTIONS = ['Python\'s own str(int)/int(str) and strftime/strptime round-trip (C code)',
